@@ -253,6 +253,21 @@ def array_task(kind, deriv, dtype='float64', quantities=('isna', 'bounds', 'tota
     expect_ids = fl(list(range(len(src))))
     it = ts.install(Interp())
     it.stubs['sqrt'] = Stub(c14.sqrt_stub, 'math.sqrt -> uninterpreted sqrt_uf')
+    f32 = str(np.dtype(dtype)) == 'float32' and not flags
+    if f32:
+        # float32 buffer: every coordinate symbol is float32-typed; the relational obligations below cannot see rounding (both
+        # sides run the same kernels), so the run must not perform any float32 (op) float32 arithmetic at all (DESIGN 10.2)
+        for num in ts.sym.values():
+            num.f32 = True
+        values.F32.update(on=True, rounded=0, defs=None, sum_exp=25, prod_exp=50)
+    try:
+        return _array_task_body(kind, deriv, dtype, quantities, flags, timeout, seed, inert, ts, specs, src, src_tags_before, arr, expect_ids, it, t0, f32)
+    finally:
+        if f32:
+            values.F32['on'] = False
+
+
+def _array_task_body(kind, deriv, dtype, quantities, flags, timeout, seed, inert, ts, specs, src, src_tags_before, arr, expect_ids, it, t0, f32):
     findings = []       # (quantity, form, kind_of_problem, detail)
     checks = []         # (name, z3 disjunction of differences)
     # ---- elements of the derived array equal the selected source elements (native reads, tag identity)
@@ -427,6 +442,11 @@ def array_task(kind, deriv, dtype='float64', quantities=('isna', 'bounds', 'tota
            'n_elements': n, 'specs': specs, 'expect_ids': expect_ids}
     if not findings and any(v != 'unsat' for v in res.values()):
         out['detail'] = f"undecided: {[k for k, v in res.items() if v != 'unsat']}"
+    if f32:
+        out['f32_typed_operations'] = values.F32['rounded']
+        if values.F32['rounded'] and out['status'] == 'unsat':
+            out.update(status='unknown', detail=f"{values.F32['rounded']} float32-typed operations on a float32 buffer: rounding is outside the relational obligation "
+                                                "(the float32 kernel queries decide)")
     return out
 
 
